@@ -68,3 +68,51 @@ Theorem gen_oriented_side_spec (ori : Z) : (ori = 0 \/ ori = 1)%Z ->
   ((gen_oriented_row0 ori) mod 2 = ori /\ (gen_oriented_row1 ori) mod 2 = 1 - ori /\
    (gen_oriented_normal_row ori) mod 2 = ori /\ gen_plain_row 0 = 0 /\ gen_plain_row 1 = 1 /\ gen_plain_normal_row = 0)%Z.
 Proof. intros [->| ->]; vm_compute; repeat split; reflexivity. Qed.
+
+(* ---------- Form._normalize_asm_kwargs and the parameter dictionary of the three form types ---------- *)
+Require Import Model.C01_Params.
+Section ParamsTie.
+  Variable R : Type.
+  Variable rO : R.
+  Variable V : Type.
+  Variables (vadd : V -> V -> V) (vscale : R -> V -> V).
+  Notation basis := (basis R V).
+
+  Lemma gen_normalize_is_model (b : basis) p : gen_normalize_one R rO V vadd vscale b p = normalize_one R rO V vadd vscale b p.
+  Proof. destruct p; reflexivity. Qed.
+
+  (* the three form types build the same dictionary from (defaults of the basis, keyword arguments): same normalisation on the
+     same (trial) basis, same precedence *)
+  Theorem gen_params_identical dflt kw (ub vb : basis) :
+    gen_params_bilinear R rO V vadd vscale dflt kw ub vb = gen_params_functional R rO V vadd vscale dflt kw ub /\
+    gen_params_linear R rO V vadd vscale dflt kw ub = gen_params_functional R rO V vadd vscale dflt kw ub.
+  Proof. split; reflexivity. Qed.
+
+  (* what each kind becomes *)
+  Theorem gen_normalize_kinds (b : basis) :
+    (forall u, gen_normalize_one R rO V vadd vscale b (RVector u (bN b))
+               = gen_normalize_one R rO V vadd vscale b (RField (interp R rO V vadd vscale b u) (bnq b))) /\
+    (forall u, gen_normalize_one R rO V vadd vscale b (RVector u (bN b)) = Some (NField (interp R rO V vadd vscale b u))) /\
+    (forall a, gen_normalize_one R rO V vadd vscale b (RArray a) = Some (NField a)) /\
+    (forall s, gen_normalize_one R rO V vadd vscale b (RNumber s) = Some (NNumber s)) /\
+    (forall f nq, gen_normalize_one R rO V vadd vscale b (RField f nq) = if nq =? bnq b then Some (NField f) else None) /\
+    (forall u len, len <> bN b -> gen_normalize_one R rO V vadd vscale b (RVector u len) = None) /\
+    gen_normalize_one R rO V vadd vscale b ROther = None.
+  Proof.
+    assert (E : forall p, gen_normalize_one R rO V vadd vscale b p = normalize_one R rO V vadd vscale b p)
+      by (intros p; apply gen_normalize_is_model).
+    repeat split; intros; rewrite !E; cbn [normalize_one]; rewrite ?Nat.eqb_refl; try reflexivity.
+    all: try (match goal with |- (if ?l =? ?n then _ else _) = None => destruct (Nat.eqb_spec l n); [contradiction | reflexivity] end).
+    all: repeat (rewrite E; cbn [normalize_one]); rewrite ?Nat.eqb_refl; reflexivity.
+  Qed.
+
+  (* a keyword of the caller overrides a default of the same name; other defaults stay visible *)
+  Theorem gen_params_precedence dflt kw (ub : basis) env k :
+    gen_params_functional R rO V vadd vscale dflt kw ub = Some env ->
+    exists u, normalize_all R V (gen_normalize_one R rO V vadd vscale ub) kw = Some u /\
+      env k = match lookup k u with Some x => Some x | None => lookup k (dflt ub) end.
+  Proof.
+    unfold gen_params_functional. destruct (normalize_all R V _ kw) as [u|]; [|discriminate].
+    intros E. inversion E; subst env. exists u. split; reflexivity.
+  Qed.
+End ParamsTie.
